@@ -360,3 +360,24 @@ def subst_upvars(prog, body, t):
     if isinstance(t[0], str):
         return (t[0],) + tuple(subst_upvars(prog, body, x) if isinstance(x, tuple) else x for x in t[1:])
     return tuple(subst_upvars(prog, body, x) if isinstance(x, tuple) else x for x in t)
+
+
+def inline_calls(prog, t, allow=None, depth=0):
+    """replace calls to functions whose MIR is in `prog` (free functions / inherent methods of the crate) by their return
+    term with the actual arguments substituted; `allow(path)` restricts which callees are inlined; two levels"""
+    if not isinstance(t, tuple) or not t:
+        return t
+    if t[0] == "call" and depth < 3 and isinstance(t[1], str) and t[1] in prog.bodies and not t[1].startswith(("std::", "core::", "alloc::")) \
+            and (allow is None or allow(t[1])):
+        hb = prog.bodies[t[1]]
+        ret = Resolver(hb).local(0)
+        actual = t[2]
+
+        def subst(x):
+            if not isinstance(x, tuple) or not x:
+                return x
+            if x[0] == "arg" and len(x) >= 2 and isinstance(x[1], int) and 1 <= x[1] <= len(actual):
+                return actual[x[1] - 1]
+            return tuple(subst(y) for y in x)
+        return inline_calls(prog, subst(ret), allow, depth + 1)
+    return tuple(inline_calls(prog, x, allow, depth) if isinstance(x, tuple) else x for x in t)
